@@ -74,6 +74,18 @@ def gen_cases(seed, tier):
             for dt in ("native:float32", "native:float64"):
                 add("consume", sampler=sampler, flow="zuko", xp="torch", dtype=dt)
                 add("consume", sampler=sampler, flow="flowjax", xp="jax", dtype=dt)
+    # (convert) direct conversions: operation sequences over a pool of sample sets (every class x namespace x width x
+    # optional-field subset) in which to_namespace / to_numpy compose with select / concatenate / pickle / dict round trips;
+    # a seeded Hypothesis search per case, interleaved with the run cases
+    from . import machine_common as mc
+
+    conv = mc.gen_cases(ID, seed, tier, n_quick=16, n_thorough=200, ex_quick=60, ex_thorough=200, steps=10)
+    for c in conv:
+        c["run_index"] = 500000 + c["run_index"]
+        c["kind"] = "convert"
+    step = max(1, len(cases) // (len(conv) + 1))
+    for k, c in enumerate(conv):
+        cases.insert(min(len(cases), (k + 1) * step + k), c)
     return cases
 
 
@@ -168,6 +180,11 @@ def judge_precision(r, scn, V, where, tag_prefix=""):
 
 
 def run_case(case, workdir):
+    if case.get("kind") == "convert" or "ops" in case:
+        from ..machines import c15conv
+        from . import machine_common as mc
+
+        return mc.run_case(c15conv, case, workdir)
     scn = scenario_of(case)
     kind = case["kind"]
     where = {**O.scn_where(scn), "kind": kind, "xp_out": scn.get("xp_out")}
